@@ -111,6 +111,7 @@ type replayResult struct {
 	panicMsg      string
 	obs           string
 	crashedBefore bool
+	deviated      bool // the native run could not be kept on the recorded interleaving
 }
 
 func checkMain(args []string) int {
@@ -121,6 +122,7 @@ func checkMain(args []string) int {
 	jobs := fs.Int("jobs", 16, "parallel workers")
 	only := fs.String("only", "", "run only harness functions matching this regexp")
 	keep := fs.Bool("keep", false, "keep the scratch directory")
+	deadlineFlag := fs.Duration("deadline", 0, "override the per-harness exploration deadline (debugging)")
 	noReplay := fs.Bool("no-replay", false, "skip native replay (debugging only; candidates are then reported as unconfirmed)")
 	fs.Parse(args)
 	if fs.NArg() < 1 {
@@ -229,6 +231,18 @@ func checkMain(args []string) int {
 		intrFile[pkg] = p
 	}
 
+	// the native intrinsics refer to gofile.VerifHook: make that declaration visible to the
+	// engine's type checker as well (the engine itself models the file system and ignores it)
+	hookOv := map[string]string{}
+	if err := hookOverlay(*repo, scratch, hookOv); err != nil {
+		fmt.Fprintln(os.Stderr, "hook overlay:", err)
+	}
+	var hookArgs []string
+	for virt, real := range hookOv {
+		if strings.Contains(virt, "go-file") && strings.HasSuffix(virt, "file.go") {
+			hookArgs = append(hookArgs, "-overlay", real+"="+virt)
+		}
+	}
 	self, _ := os.Executable()
 	var results []runOut
 	var resMu sync.Mutex
@@ -240,6 +254,9 @@ func checkMain(args []string) int {
 		ts := time.Now()
 		outFile := filepath.Join(scratch, fmt.Sprintf("res_%s_%s.json", s.Fn, tag))
 		dl := s.Deadline
+		if *deadlineFlag > 0 {
+			dl = *deadlineFlag
+		}
 		if dl == 0 {
 			dl = 8 * time.Minute
 			if *tier == "thorough" {
@@ -264,6 +281,7 @@ func checkMain(args []string) int {
 		for _, su := range pkgSetups[s.Pkg] {
 			wargs = append(wargs, "-setup", su)
 		}
+		wargs = append(wargs, hookArgs...)
 		wargs = append(wargs, extra...)
 		cmd := exec.Command(self, wargs...)
 		cmd.Stderr = os.Stderr
@@ -488,7 +506,16 @@ func checkMain(args []string) int {
 	var mismatch []string
 	for _, t := range traces {
 		rr := replayed[t.id]
-		if rr == nil || !rr.began || !rr.ended {
+		if rr == nil || !rr.began || !rr.ended || rr.deviated {
+			continue
+		}
+		uncontrolled := false
+		for k := range t.t.Model {
+			if strings.HasPrefix(k, "select") || strings.HasPrefix(k, "maporder") {
+				uncontrolled = true // Go chooses among ready select cases / map orders at random
+			}
+		}
+		if uncontrolled {
 			continue
 		}
 		want := strings.Join(t.t.Observe, ";")
@@ -662,6 +689,9 @@ func nativeReplay(repo, scratch, pkg, pkgName, intr string, harnessFiles, fns, s
 		for _, f := range verifFailures {
 			fmt.Printf("\nREPLAY-FAIL %d %s\n", c.ID, f)
 		}
+		if verifDeviated {
+			fmt.Printf("\nREPLAY-DEVIATED %d\n", c.ID)
+		}
 		fmt.Printf("\nREPLAY-OBS %d %s\n", c.ID, strings.Join(verifObs, ";"))
 		fmt.Printf("\nREPLAY-END %d\n", c.ID)
 	}
@@ -677,6 +707,9 @@ func nativeReplay(repo, scratch, pkg, pkgName, intr string, harnessFiles, fns, s
 	}
 	for k, f := range harnessFiles {
 		ov[filepath.Join(repo, pkg, fmt.Sprintf("zz_verif_h%d.go", k))] = f
+	}
+	if err := hookOverlay(repo, scratch, ov); err != nil {
+		return nil, err
 	}
 	ob, _ := json.Marshal(map[string]interface{}{"Replace": ov})
 	ovFile := filepath.Join(scratch, "overlay_"+tag+".json")
@@ -731,6 +764,8 @@ func nativeReplay(repo, scratch, pkg, pkgName, intr string, harnessFiles, fns, s
 				r.fails = append(r.fails, rest)
 			case "REPLAY-PANIC":
 				r.panicMsg = rest
+			case "REPLAY-DEVIATED":
+				r.deviated = true
 			case "REPLAY-OBS":
 				r.obs = rest
 			}
@@ -885,4 +920,132 @@ func buildEvidence(prop, tier string, seed int, results []runOut, violations int
 		"wall_s":      wall,
 		"violations":  violations,
 	}
+}
+
+
+// hookOverlay adds, to a replay build overlay, copies of lib/file/*.go and of go-file's file.go in
+// which the file-system calls go through gofile.VerifHook (generated from the current sources at
+// run time; nothing is written into the repository or the module cache).
+func hookOverlay(repo, scratch string, ov map[string]string) error {
+	cmd := exec.Command("go", "list", "-m", "-f", "{{.Dir}}", "github.com/mithrandie/go-file/v2")
+	cmd.Dir = repo
+	cmd.Env = append(os.Environ(), "GOFLAGS=-mod=mod", "GOPROXY=off", "GOSUMDB=off", "GOTOOLCHAIN=local")
+	out, err := cmd.Output()
+	if err != nil {
+		return fmt.Errorf("go list go-file: %v", err)
+	}
+	gfDir := strings.TrimSpace(string(out))
+	hdir := filepath.Join(scratch, "hook")
+	os.MkdirAll(hdir, 0o755)
+	write := func(virtual, content string) {
+		real := filepath.Join(hdir, strings.ReplaceAll(strings.TrimPrefix(virtual, "/"), "/", "_"))
+		os.WriteFile(real, []byte(content), 0o644)
+		ov[virtual] = real
+	}
+	// go-file: open and close
+	b, err := os.ReadFile(filepath.Join(gfDir, "file.go"))
+	if err != nil {
+		return err
+	}
+	src := string(b)
+	src = strings.ReplaceAll(src, "os.OpenFile(path, flag, perm)", "hookOpenFile(path, flag, perm)")
+	src = strings.ReplaceAll(src, "fp.Close()", "hookCloseFile(fp)")
+	src += `
+
+// ---- appended by the replay overlay ----
+
+// VerifHook is set by the replay harness; it may block (recorded interleaving), panic (recorded
+// crash) or report an injected fault.
+var VerifHook func(op, path string) bool
+
+func VerifPoint(op, path string) bool {
+	if VerifHook != nil {
+		return VerifHook(op, path)
+	}
+	return false
+}
+
+func hookOpenFile(path string, flag int, perm os.FileMode) (*os.File, error) {
+	if VerifPoint("open", path) {
+		return nil, &os.PathError{Op: "open", Path: path, Err: os.ErrInvalid}
+	}
+	return os.OpenFile(path, flag, perm)
+}
+
+func hookCloseFile(fp *os.File) error {
+	if VerifPoint("close", fp.Name()) {
+		return &os.PathError{Op: "close", Path: fp.Name(), Err: os.ErrInvalid}
+	}
+	return fp.Close()
+}
+`
+	write(filepath.Join(gfDir, "file.go"), src)
+	// lib/file: stat, remove, rename, glob
+	files, _ := filepath.Glob(filepath.Join(repo, "lib", "file", "*.go"))
+	for _, f := range files {
+		if strings.HasSuffix(f, "_test.go") {
+			continue
+		}
+		b, err := os.ReadFile(f)
+		if err != nil {
+			return err
+		}
+		src := string(b)
+		n := src
+		n = strings.ReplaceAll(n, "os.Stat(", "verifStat(")
+		n = strings.ReplaceAll(n, "os.Remove(", "verifRemove(")
+		n = strings.ReplaceAll(n, "os.Rename(", "verifRename(")
+		n = strings.ReplaceAll(n, "filepath.Glob(", "verifGlob(")
+		if n == src {
+			continue
+		}
+		if strings.Contains(n, "\"os\"") {
+			n += "\nvar _ = os.DevNull\n"
+		}
+		if strings.Contains(n, "\"path/filepath\"") {
+			n += "\nvar _ = filepath.Separator\n"
+		}
+		write(f, n)
+	}
+	write(filepath.Join(repo, "lib", "file", "zz_verif_os.go"), `package file
+
+import (
+	"errors"
+	"os"
+	"path/filepath"
+
+	gofile "github.com/mithrandie/go-file/v2"
+)
+
+var errVerifFault = errors.New("injected fault")
+
+func verifStat(path string) (os.FileInfo, error) {
+	if gofile.VerifPoint("stat", path) {
+		return nil, &os.PathError{Op: "stat", Path: path, Err: errVerifFault}
+	}
+	return os.Stat(path)
+}
+
+func verifRemove(path string) error {
+	if gofile.VerifPoint("remove", path) {
+		return &os.PathError{Op: "remove", Path: path, Err: errVerifFault}
+	}
+	return os.Remove(path)
+}
+
+func verifRename(from, to string) error {
+	if gofile.VerifPoint("rename", from) {
+		return &os.PathError{Op: "rename", Path: from, Err: errVerifFault}
+	}
+	return os.Rename(from, to)
+}
+
+func verifGlob(pattern string) ([]string, error) {
+	if gofile.VerifPoint("glob", pattern) {
+		return nil, nil
+	}
+	return filepath.Glob(pattern)
+}
+`)
+	return nil
 }
